@@ -22,7 +22,8 @@ import (
 	"verif/vlib"
 )
 
-const verifDir = "/verif"
+// verifDir is where the framework lives: /verif, or a snapshot of it (vp run)
+var verifDir = envOr("VERIF_DIR", "/verif")
 
 // outDir is where binaries, evidence and replays go; /verif unless an experiment
 // (mutant run against a scratch copy of the repository) redirects it.
